@@ -99,18 +99,20 @@ func (v fval) itemBytes() [][]byte {
 }
 
 type wtype struct {
-	name     string
-	bare     bool
-	slots    []slot
-	enc      func(v []fval) ([]byte, error)
-	dec      func(b []byte) ([]fval, error)
-	lastRead func() []fval // reads the most recently decoded object of this type AGAIN (it is kept alive on purpose)
-	lastStr  string        // what it read as right after decoding
-	nRetain  int
-	nChanged int
-	weight   float64 // scales the number of generated cases (heavy types get fewer)
-	capLen   int     // generator cap on item/byte lengths where the declared limit is huge
-	capN     int     // generator cap on counts where the declared limit is huge
+	name                    string
+	bare                    bool
+	slots                   []slot
+	enc                     func(v []fval) ([]byte, error)
+	dec                     func(b []byte) ([]fval, error)
+	lastRead                func() []fval // reads the most recently decoded object of this type AGAIN (it is kept alive on purpose)
+	lastStr                 string        // what it read as right after decoding
+	nRetain                 int
+	nChanged                int
+	lastEnc, lastEncCopy    []byte // the previous encoding, kept alive, and what it was
+	nEncRetain, nEncChanged int
+	weight                  float64 // scales the number of generated cases (heavy types get fewer)
+	capLen                  int     // generator cap on item/byte lengths where the declared limit is huge
+	capN                    int     // generator cap on counts where the declared limit is huge
 }
 
 type sszObj interface {
@@ -146,6 +148,17 @@ func c14SafeEnc(t *wtype, v []fval) (b []byte, err error, panicked bool) {
 		}
 	}()
 	b, err = t.enc(v)
+	// an encoding is a value too: the previous one must still be what it was
+	if t.lastEnc != nil {
+		t.nEncRetain++
+		if !bytes.Equal(t.lastEnc, t.lastEncCopy) {
+			t.nEncChanged++
+		}
+	}
+	t.lastEnc, t.lastEncCopy = nil, nil
+	if err == nil && len(b) > 0 {
+		t.lastEnc, t.lastEncCopy = b, append([]byte{}, b...)
+	}
 	return
 }
 
@@ -1211,6 +1224,9 @@ func runC14(o *Out, r *rand.Rand, thorough bool, _ []string) {
 		for _, t := range types {
 			if t.nRetain > 0 {
 				o.Case(fmt.Sprintf("retain %s n=%d", t.name, t.nRetain), fmt.Sprintf("changed=%d", t.nChanged))
+			}
+			if t.nEncRetain > 0 {
+				o.Case(fmt.Sprintf("retain %s.enc n=%d", t.name, t.nEncRetain), fmt.Sprintf("changed=%d", t.nEncChanged))
 			}
 		}
 	}()
